@@ -101,6 +101,7 @@ type World struct {
 	noPanicViolation bool
 	handles          []*sod.DB
 	absOps           []string
+	lastPut          []putRecord
 	maxLive          int
 }
 
@@ -253,6 +254,15 @@ func (w *World) Cleanup() {
 
 // ---- writes ----
 
+type putRecord struct {
+	X     *Rec
+	Want  *Rec
+	Class string // actual outcome class
+	Exp   string // expected class
+	Api   string
+	Batch bool
+}
+
 type writeOutcome struct {
 	Err   error
 	Class string
@@ -294,6 +304,7 @@ func (w *World) Put(x *Rec, kind string) writeOutcome {
 	}
 	w.logf(" -> %s uuid=%.8s", out.Class, x.UUID())
 	api := "InsertOrUpdate(" + kind + ")"
+	w.lastPut = append(w.lastPut, putRecord{X: x, Want: want, Class: out.Class, Exp: expClass, Api: api})
 	if w.predict && out.Class != expClass {
 		w.fail("accept-mismatch:want-"+expClass+"-got-"+out.Class, api, "-",
 			fmt.Sprintf("expected %s (%s), got %s: %v; object %s", expClass, expDetail, out.Class, out.Err, recBrief(x)))
@@ -384,8 +395,10 @@ func (w *World) SearchDelete(q Query) {
 		w.fail("search-delete-error", "Search.Delete", "-", fmt.Sprintf("%s: %v", q, err))
 		return
 	}
-	for u := range set {
-		w.m.Delete(u)
+	for _, u := range w.m.Live() { // deterministic order
+		if set[u] {
+			w.m.Delete(u)
+		}
 	}
 }
 
